@@ -270,7 +270,7 @@ def _work_special(job):
                 if np.linalg.norm(g[i, j] - pq) > 1e-9:
                     part.violation("pixel/grid-differs-from-reference", "%r: toasty's pixel centre (%d, %d) of tile %r is %.3g rad from the reference centre" % (cfg, j, i, (n_, x_, y_), np.linalg.norm(g[i, j] - pq)), cfg)
                     continue
-                if tuple(t.pos) != (n_, x_, y_) or not (abs(x - j) <= 0.5 and abs(y - i) <= 0.5):
+                if tuple(t.pos) != (n_, x_, y_) or not (abs(x - j) <= 2 and abs(y - i) <= 2):
                     part.violation("pixel/exact-centre", "%r: the query is the centre of pixel (x=%d, y=%d) of tile %r; returned tile %r, (x, y) = (%.3f, %.3f)" % (cfg, j, i, (n_, x_, y_), tuple(t.pos), x, y), cfg)
     return part
 
